@@ -84,6 +84,8 @@ def exc_lit(e):
     kind = e[0]
     if kind == 'sock':
         return '(SockError %s)' % zlit(e[1])
+    if kind == 'other':
+        return '(SockError (-999))'        # not a model outcome: can never agree
     return {'abrupt': 'AbruptClose', 'overflow': 'RecordOverflow', 'illegal': 'IllegalParameter',
             'value': 'ValueErr'}[kind]
 
@@ -495,17 +497,20 @@ def spec_send_wire(case):
 
 # ------------------------------------------------------------------------------------------
 # unit level: BufferedSocket write side
-def gen_buf_case(rng):
+def gen_buf_case(rng, has_async=True):
+    """ops: ('S', data) | ('Fl',) blocking-socket flush() | ('FlA',) generator flush_async() | ('B', flag)"""
     ops = []
     disciplined = rng.random() < 0.7
     total = 0
+    sync = (not has_async) or rng.random() < 0.25          # does this case use the blocking flush()?
+    fl = ('Fl',) if sync else ('FlA',)
     for _ in range(rng.randrange(1, 5)):
         if disciplined:
             msgs = [rbytes(rng, rng.choice([0, 1, 3, 20, 100])) for _ in range(rng.randrange(0, 4))]
             if rng.random() < 0.6:
                 ops.append(('B', True))
                 ops += [('S', m) for m in msgs]
-                ops += [('Fl',), ('B', False)]
+                ops += [fl, ('B', False)]
             else:
                 ops += [('S', m) for m in msgs]
             total += sum(len(m) for m in msgs)
@@ -517,14 +522,14 @@ def gen_buf_case(rng):
                     total += len(m)
                     ops.append(('S', m))
                 elif o == 'Fl':
-                    ops.append(('Fl',))
+                    ops.append(fl if rng.random() < 0.8 or not has_async else rng.choice([('Fl',), ('FlA',)]))
                 else:
                     ops.append(('B', rng.random() < 0.5))
     s, style = gen_sscript(rng, total + 3)
-    if rng.random() < 0.5:
+    if rng.random() < (0.7 if sync else 0.3):
         s = [e for e in s if e[0] == 'A']
         style += '-acceptonly'
-    return dict(ops=ops, script=s, cls=(style, disciplined))
+    return dict(ops=ops, script=s, cls=(style, disciplined, 'sync' if any(o == ('Fl',) for o in ops) else 'async'))
 
 
 def impl_buf(case):
@@ -543,6 +548,11 @@ def impl_buf(case):
                         raise RuntimeError('no termination')
             elif op[0] == 'Fl':
                 bs.flush()
+            elif op[0] == 'FlA':
+                for r in bs.flush_async():
+                    y += 1
+                    if r != 1 or y > 100000:
+                        raise RuntimeError('flush_async yielded %r' % (r,))
             else:
                 bs.buffer_writes = op[1]
     except ScriptExhausted:
@@ -558,6 +568,8 @@ def wop_lit(op):
         return 'WSend %s' % blit(op[1])
     if op[0] == 'Fl':
         return 'WFlush'
+    if op[0] == 'FlA':
+        return 'WFlushA'
     return 'WBuffer %s' % boollit(op[1])
 
 
@@ -875,6 +887,7 @@ IO_EXPECTED = sorted([
     ('tlslite/bufferedsocket.py', 'BufferedSocket.send', 'self.socket.send'),
     ('tlslite/bufferedsocket.py', 'BufferedSocket.sendall', 'self.socket.sendall'),
     ('tlslite/bufferedsocket.py', 'BufferedSocket.flush', 'self.socket.sendall'),
+    ('tlslite/bufferedsocket.py', 'BufferedSocket.flush_async', 'self.socket.send'),
     ('tlslite/bufferedsocket.py', 'BufferedSocket.recv', 'self.socket.recv'),
 ])
 
